@@ -1,7 +1,21 @@
 (* C15, codec2 part: base-64 decoder/encoder, serialised-address decoder, socket-address parser,
    key-file and passphrase-file readers never leave their input or the output space their
    contract names.  A Fault is any access outside an object; the theorems say the result is Ok.
-   Only statements, each closed by [exact], with Print Assumptions. *)
+   Only statements, each closed by [exact], with Print Assumptions.
+
+   OUTSIDE THE GALLINA MODEL: the diagnostics path.  When a parser rejects its input it reports
+   through warn0()/warnp() (util/warnp.c), and util/sock.c quotes the rejected address text in
+   the message ("socket path too long: %s", "Invalid port number: %s", "Invalid [IP address]: %s",
+   "Error parsing IP address: %s", "Address must contain port number: %s"); the file readers
+   quote the file NAME only, never file content.  warnp.c (vfprintf to stderr, or - after
+   warnp_syslog(1) - vsnprintf into a fixed line buffer of WARNP_SYSLOG_MAX_LINE + 1 bytes handed to
+   syslog) is not modelled and no theorem below speaks about it.  It is exercised by the run
+   instead: the sock-safety sub-check links the library's own warnp.c and runs every resolve case
+   in BOTH reporting modes (stderr; syslog with syslog(3) interposed) under ASan, including
+   rejected addresses whose message length sweeps 4000..4200 around the line-buffer size and
+   addresses of 8192 and 70000 bytes, for every message that quotes its input.
+   Also outside the theorems: sock_addr_prettyprint on an AF_UNIX name without a NUL inside its
+   block (the model says Fault; probe "sock.prettyprint-unix-unterminated" of the same run). *)
 From Coq Require Import NArith List.
 From LCP Require Import Base.CheckedMem Gen.Repo_codec Gen.Repo_codec2 Util.EndianMem Util.B64 Util.B64Proofs Util.SockText Util.Sock Util.SockProofs Util.LineFiles Util.LineFilesProofs.
 Import ListNotations.
